@@ -189,7 +189,11 @@ def cli(f, pn, kind, mo, fl, perm, loglvl):
         os.makedirs(empty, exist_ok=True)
         env["PATH"] = empty                       # no objdump anywhere on PATH
         argv = [a for a in argv if a != "ENV" and a != "no_objdump"]
-    r = subprocess.run([sys.executable, "-m", "jasm.main"] + argv, capture_output=True, text=True, cwd=f["cwd"], env=env)
+    try:
+        r = subprocess.run([sys.executable, "-m", "jasm.main"] + argv, capture_output=True, text=True, cwd=f["cwd"], env=env, timeout=600)
+    except subprocess.TimeoutExpired as e:      # a CLI run that never ends is an outcome (no verdict line, no exit status)
+        r = subprocess.CompletedProcess(e.cmd, "timeout", (e.stdout or b"").decode("utf-8", "replace") if isinstance(e.stdout, bytes) else (e.stdout or ""),
+                                        (e.stderr or b"").decode("utf-8", "replace") if isinstance(e.stderr, bytes) else (e.stderr or ""))
     text = r.stdout + "\n" + r.stderr
     addrs = re.findall(r"Matched address: (.*)$", text, flags=re.M)
     found = "RESULT: Pattern found" in text
